@@ -78,6 +78,81 @@ impl Types for PV {
     }
 }
 
+/// Third instantiation: `payload_size()` is the payload's capacity, which `clone()` does not preserve. The cache
+/// must account for what it actually stores.
+#[derive(Debug, Clone, PartialEq, Eq, Default)]
+pub struct PC;
+
+impl Types for PC {
+    type LogId = (u64, u64);
+    type LogPayload = String;
+    type Vote = (u64, u64);
+    type Callback = AckCb;
+    type UserData = String;
+    fn log_index(log_id: &Self::LogId) -> u64 {
+        log_id.1
+    }
+    fn payload_size(payload: &Self::LogPayload) -> u64 {
+        payload.capacity() as u64
+    }
+}
+
+/// C15 under `PC`: after every call stat()'s item count / byte size equal the number / total `payload_size()` of the
+/// resident payloads (hook H1 measures the stored values). Returns the number of observations.
+pub fn capacity_accounting_round(seed: u64) -> Result<u64, Viol> {
+    let mut r = Rng::new(seed);
+    let dir = util::fresh_dir("pcap");
+    let cfg = CfgSpec { max_records: Some(*r.pick(&[3usize, 5, 1000])), read_buf: Some(64), max_items: *r.pick(&[None, Some(2usize), Some(5)]), ..Default::default() };
+    let mk = |sig: &str, text: String| Viol { prop: "C15".into(), sig: format!("C15:{}", sig), text, replay: json!({"kind": "pcap", "seed": seed.to_string()}) };
+    let res = (|| -> Result<u64, Viol> {
+        let mut rl = RaftLog::<PC>::open(cfg.to_config(&dir)).map_err(|e| mk("pcap_open", e.to_string()))?;
+        let mut obs = 0u64;
+        let mut next = 0u64;
+        for step in 0..r.range(10, 30) {
+            match r.below(6) {
+                0 if next > 2 => {
+                    let ix = next - 1 - r.below(2);
+                    if rl.truncate(ix).is_ok() {
+                        next = ix;
+                    }
+                }
+                1 if next > 3 => {
+                    let _ = rl.purge((1, r.below(next)));
+                }
+                2 => {
+                    let fid = crate::trace::next_flush_id();
+                    let _ = rl.flush(Some(AckCb::new(fid)));
+                    let _ = crate::trace::wait_ack(fid, 60_000);
+                    rl.wait_worker_idle();
+                }
+                _ => {
+                    // payloads with spare capacity: what the caller hands in weighs more than the clone that is cached
+                    let mut p = String::with_capacity(*r.pick(&[16usize, 64, 1000, 40_000]));
+                    p.push_str(&format!("pc{}", step));
+                    if rl.append(vec![((1, next), p)]).is_ok() {
+                        next += 1;
+                    }
+                }
+            }
+            let s = rl.stat();
+            let (_, resident) = rl.verif_cache_resident();
+            let bytes: u64 = resident.iter().map(|x| x.1).sum();
+            obs += 1;
+            if s.payload_cache_item_count != resident.len() as u64 || s.payload_cache_size != bytes {
+                return Err(mk("size:capacity_based_payload_size", format!("payload_size() = capacity: stat reports {} items / {} bytes, the resident payloads are {} / {} bytes", s.payload_cache_item_count, s.payload_cache_size, resident.len(), bytes)));
+            }
+        }
+        Ok(obs)
+    })();
+    util::remove_dir(&dir);
+    res
+}
+
+pub fn replay_pcap(vj: &serde_json::Value) -> Option<Viol> {
+    let seed: u64 = vj["seed"].as_str()?.parse().ok()?;
+    capacity_accounting_round(seed).err()
+}
+
 fn accepts(cur: &Option<PVote>, new: &PVote) -> bool {
     match cur {
         None => true,
